@@ -10,7 +10,7 @@ open OdlModel OdlModel.OpAlgebra
 answers `ok tree=… dom=… ran=… lin=0|1 fn=0|1 ty=… linof=0|1 tt=0|1 val=… inp=… den=…` or
 `raise ty=… tt=0|1` (`tt`: the dispatch through the extracted tables gives the same object).
 
-leaf   : `<lin><fn>~` + one of `repart~n` `impart~n` `scalef~c` `powf~p` (field -> field) `mat~ndom~nran~rows` `scale~n~c` `ident~n` `pow~n~p` `inner~n~y` `l2sq~n` `constf~n~c`
+leaf   : `<lin><fn>~` + one of `shift~n~p` `repart~n` `impart~n` `scalef~c` `powf~p` (field -> field) `mat~ndom~nran~rows` `scale~n~c` `ident~n` `pow~n~p` `inner~n~y` `l2sq~n` `constf~n~c`
          `zerof~n` `linf~n~y` (leaf id = position)
 tokens : `L~id` `neg` `pow~n` `add` `sub` `mul` `pprod` `quot`
          `s.lmul~c~r` `s.rmul~c~r` `s.div~c~r` `s.add~c~r` `s.radd~c~r` `s.sub~c~r` `s.rsub~c~r`
@@ -68,6 +68,11 @@ def parseLeafKind (id : Nat) (parts : List String) : Option (Leaf × (V → V)) 
   | ["powf", p] => do
       let p ← p.toNat?
       some (⟨id, .fld, .fld, false, false⟩, fun x => let v := cpow (x 0) p; fun _ => v)
+  | ["shift", n, p] => do   -- harness operator out[j] = x[(j+1) mod n] ^ p (not alias-safe)
+      let n ← n.toNat?
+      let p ← p.toNat?
+      some (⟨id, .vec n, .vec n, p == 1, false⟩,
+        fun x j => if j < n then cpow (x ((j + 1) % n)) p else 0)
   | ["repart", n] => do   -- ComplexEmbedding ∘ RealPart on cn(n): real-linear only
       let n ← n.toNat?
       some (⟨id, .vec n, .vec n, true, false⟩, fun x j => if j < n then ⟨(x j).re, 0⟩ else 0)
